@@ -343,7 +343,13 @@ func (e *Effects) cellConst(cell ssa.Value, depth int) (bool, bool) {
 				return false, false
 			}
 			stored = x.Val
-		case *ssa.UnOp, *ssa.MakeClosure, *ssa.DebugRef:
+		case *ssa.MakeClosure:
+			// the closure shares the cell: a store it makes through its free variable (or hands on to a nested
+			// closure) is a second write
+			if !freeVarReadOnly(x, al, 0) {
+				return false, false
+			}
+		case *ssa.UnOp, *ssa.DebugRef:
 		default:
 			return false, false
 		}
@@ -352,6 +358,36 @@ func (e *Effects) cellConst(cell ssa.Value, depth int) (bool, bool) {
 		return false, false
 	}
 	return e.constBool(stored, depth+1)
+}
+
+// freeVarReadOnly: the closure made by mc only loads the cell it captures as `cell` (also in closures nested in it).
+func freeVarReadOnly(mc *ssa.MakeClosure, cell ssa.Value, depth int) bool {
+	cf, ok := mc.Fn.(*ssa.Function)
+	if !ok || depth > 4 {
+		return false
+	}
+	for i, bnd := range mc.Bindings {
+		if bnd != cell || i >= len(cf.FreeVars) {
+			continue
+		}
+		fv := cf.FreeVars[i]
+		if fv.Referrers() == nil {
+			continue
+		}
+		for _, r := range *fv.Referrers() {
+			switch x := r.(type) {
+			case *ssa.UnOp, *ssa.DebugRef:
+			case *ssa.MakeClosure:
+				if !freeVarReadOnly(x, fv, depth+1) {
+					return false
+				}
+			default:
+				_ = x
+				return false
+			}
+		}
+	}
+	return true
 }
 
 // deadBlocks: blocks unreachable once conditions with a known constant value
